@@ -32,7 +32,8 @@ Forms == <<
   [G("label#a[for=x]", "label", "a", <<>>, <<>>, FALSE, FALSE) EXCEPT !.attrs = <<<<"for", "x">>>>],          \* label + input: the label addon rewrites attribute lists
   [G("input[type=t]/", "input", "", <<>>, <<>>, TRUE, FALSE) EXCEPT !.attrs = <<<<"type", "t">>>>],
   G("div{${1}${2:tail}}", "div", "", <<>>, <<"tail">>, FALSE, FALSE),
-  G("p{a ${1} b\nc}", "p", "", <<>>, <<"a  b", "c">>, FALSE, FALSE) >>                                        \* a field, then a line break, in one text                                         \* text made of two adjacent fields: children go to the first
+  G("p{a ${1} b\nc}", "p", "", <<>>, <<"a  b", "c">>, FALSE, FALSE),
+  G("p{a\n}", "p", "", <<>>, <<"a", "">>, FALSE, FALSE) >>                                                      \* 22: a text that ends in a line break                                        \* a field, then a line break, in one text                                         \* text made of two adjacent fields: children go to the first
 FormKey(k) == "G" \o ToString(k)
 KeyIdx(key) == CHOOSE k \in 1..Len(Forms) : FormKey(k) = key
 GNext == \/ \E k \in FormIdx : Item(Forms[k].s, FormKey(k), Forms[k].sc)
